@@ -41,6 +41,10 @@ func specCollectionElem(t types.Type) string {
 		if strings.HasSuffix(p, "/commands/diff.PathItemOp") || strings.HasSuffix(p, "/commands/diff.PropertyDefn") {
 			return p[strings.LastIndex(p, "/")+1:]
 		}
+		// the generator's own plan of what to write: one entry per definition, operation and group of the spec
+		if strings.HasSuffix(p, "/generator.GenDefinition") || strings.HasSuffix(p, "/generator.GenOperation") || strings.HasSuffix(p, "/generator.GenOperationGroup") {
+			return p[strings.LastIndex(p, "/")+1:]
+		}
 		for _, pre := range []string{"github.com/go-openapi/spec.", "github.com/go-openapi/analysis.", "go/types.", "go/ast.", "golang.org/x/tools/go/packages."} {
 			if strings.HasPrefix(p, pre) {
 				return p[strings.LastIndex(p, "/")+1:]
